@@ -92,9 +92,16 @@ def main():
     # a tie no longer checks (an obligation fails, a translator or source pin is broken) and the search found no failing input: search twice more
     # under other seeds before reporting `no-failing-input-found` (never reached on a tree where everything checks)
     tie_broken = bool(rep.broken) or not all(o.get("ok") for o in obligations)
+    # tripwires of the translators loaded in this process: hand-transcribed functions whose source is no longer the one their transcription
+    # was validated against (translate_schema.LAST["source_changes"]; any other translator: a module-level list SOURCE_CHANGES)
+    ts = sys.modules.get("ofxv.translate_schema")
+    source_changes = list((getattr(ts, "LAST", None) or {}).get("source_changes", [])) if ts else []
+    for name, m in sorted(sys.modules.items()):
+        if name.startswith("ofxv.translate_") and m is not None:
+            source_changes += [x for x in getattr(m, "SOURCE_CHANGES", []) if x not in source_changes]
     known_keys = {f["key"] for f in C.load_findings(prop)[0]}
     new_failures = lambda: [f for f in rep.failures if f.key not in known_keys]
-    if tie_broken and not new_failures() and not rep.disagreements and not any("harness error" in b for b in rep.broken):
+    if (tie_broken or source_changes) and not new_failures() and not rep.disagreements and not any("harness error" in b for b in rep.broken):
         for extra in (1, 2):
             os.environ["VERIF_SEED"] = str(seed + extra)
             try:
@@ -107,6 +114,15 @@ def main():
             if new_failures() or rep.disagreements:
                 break
         os.environ["VERIF_SEED"] = str(seed)
+    if source_changes:
+        rep.extra["source_changed_since_transcription_validated"] = source_changes
+        if not tie_broken and not rep.broken and not new_failures() and not rep.disagreements:
+            rep.extra["tie_reestablished_by"] = "correspondence check under seeds %s: %d cases, 0 disagreements, 0 failing inputs" % (
+                [seed] + rep.extra.get("extended_search_seeds", []), rep.evaluations)
+            print("NOTE property=%s the source of hand-transcribed functions changed (%s); their tie to the model is the correspondence check, "
+                  "re-run under seeds %s: %d cases, 0 disagreements" % (prop, "; ".join(source_changes)[:300], [seed] + rep.extra.get("extended_search_seeds", []), rep.evaluations))
+        else:
+            rep.broken.append("source of hand-transcribed functions changed: %s" % source_changes[:4])
     checker = "cd /verif/coq && make -f Makefile.coq -k theories/Props/%s/*.vo && coqc -Q theories OfxV theories/Props/%s/<each>.v" % (prop, prop)
     return C.finish(rep, obligations, gate, checker, getattr(mod, "PARTIAL", []))
 
